@@ -16,7 +16,7 @@ ASSUMPTIONS = ["scipy.linalg.expm closed form of the linear rate equations is th
                "reference log-priors from vlib/ref.py (C16)"]
 RUN_OPTS = {"batch_size": 5, "timeout_per_case": 120.0}
 MINIMA = {"*": {"cost_evaluations": 300, "contract_evaluations": 300, "ll_data_entries": 1000, "permutation_pairs": 100, "history_pairs": 100,
-                "out_of_support_thetas": 20, "emcee_evaluations": 40, "differing_key_cases": 3, "reconfigured_evaluations": 40, "stochastic_cost_evaluations": 20, "square_time_arrays": 2}}
+                "out_of_support_thetas": 20, "emcee_evaluations": 40, "differing_key_cases": 3, "differing_initial_condition_key_cases": 3, "reconfigured_evaluations": 40, "stochastic_cost_evaluations": 20, "square_time_arrays": 2}}
 
 ALLP = ["kp", "k1", "k2", "d", "da"]
 
@@ -56,6 +56,11 @@ def gen_case(rnd, thorough, i):
             keys = condkeys
         conds.append({k: float("%.3g" % (true[k] * rnd.uniform(0.3, 3))) for k in keys})
     x0s = [{"A": float(rnd.randint(0, 20)), "B": float(rnd.randint(0, 20)), "C": float(rnd.randint(0, 10))} for _ in range(N)]
+    if i % 4 == 1 and N > 1:
+        # initial conditions naming different subsets of the species: an unnamed species starts at the model's own value
+        for n in range(N):
+            keep = [k_ for k_ in "ABC" if rnd.random() < 0.55] or [rnd.choice("ABC")]
+            x0s[n] = {k_: x0s[n][k_] for k_ in keep}
     grids = []
     for n in range(N):
         dt = float("%.3g" % rnd.uniform(0.1, 0.6))
@@ -87,7 +92,8 @@ def gen_case(rnd, thorough, i):
     return {"N": N, "T": T, "true": true, "est": est, "conds": conds, "condkeys": condkeys, "x0s": x0s, "grids": grids, "meas": meas, "noise": noise,
             "prior": prior, "norm": rnd.randint(1, 3), "thetas": thetas, "single_frame": (N == 1 and rnd.random() < 0.5),
             "ic_as_dict": False, "emcee": (i % 6 == 0), "stochastic": (i % 3 == 0),
-            "seed": rnd.getrandbits(30) + 1, "_": 0, "differing_keys": len(set(tuple(sorted(c)) for c in conds)) > 1}
+            "seed": rnd.getrandbits(30) + 1, "_": 0, "differing_keys": len(set(tuple(sorted(c)) for c in conds)) > 1,
+            "differing_ic_keys": len(set(tuple(sorted(c)) for c in x0s)) > 1}
 
 
 def generate(tier, seed):
@@ -110,11 +116,15 @@ def child_setup():
     ins.InferenceSetup.cost_function = icontract.ensure(cost_logged, error=AssertionError)(ins.InferenceSetup.cost_function)
 
 
+MODEL_X0 = {"A": 1.0, "B": 2.0, "C": 3.0}
+
+
 def solution(params, x0, tp):
     import numpy as np
     from scipy.linalg import expm
     kp, k1, k2, d, da = (params[k] for k in ALLP)
     A = np.array([[-(k1 + da), 0, 0, kp], [k1, -k2, 0, 0], [0, k2, -d, 0], [0, 0, 0, 0]], dtype=float)
+    x0 = dict(MODEL_X0, **x0)
     v0 = np.array([x0["A"], x0["B"], x0["C"], 1.0])
     return np.array([(expm(A * t) @ v0)[:3] for t in tp])
 
@@ -220,6 +230,8 @@ def run_case(case):
     mech = "condition-keys-differ" if case["differing_keys"] else "cost-value"
     if case["differing_keys"]:
         C["differing_key_cases"] += 1
+    if case.get("differing_ic_keys"):
+        C["differing_initial_condition_key_cases"] += 1
     # drive the sequence
     got = []
     for th in case["thetas"]:
@@ -334,6 +346,7 @@ def run_case(case):
                 # prepare_inference takes the model's values as they are as the new defaults: the model is put back to its own
                 # values first, so that "the model's parameters" of the statement are unambiguous
                 M6.set_params({k: float(v_) for k, v_ in base_params.items()})
+                M6.set_species(dict(MODEL_X0, Dz=4.0))      # as for the parameters: the model object is handed over in its original state
                 inf6.prepare_inference()
                 inf6.setup_cost_function()
                 v = float(inf6.cost_function(np.array(th)))
@@ -410,6 +423,7 @@ def run_case(case):
             except Exception:
                 inf8.set_norm_order(case["norm"])
                 M8.set_params({k: float(v_) for k, v_ in base_params.items()})
+                M8.set_species(dict(MODEL_X0, Dz=4.0))
                 inf8.prepare_inference()
                 inf8.setup_cost_function()
                 v_re = float(inf8.cost_function(np.array(th)))
